@@ -300,3 +300,26 @@ Proof.
   apply (links_sym_on_mono _ (fun _ _ => True)); [intros x y _; exact I | now apply links_sym_on_all].
 Qed.
 End Combine.
+
+(* ---------------------------------------------------------------- in the form of C04_combine_spec *)
+(* shard graphs whose k-mers are duplicate-free and carry pairwise different shard ids (the hypothesis of C04's
+   combine_spec, on the harness payload) *)
+Section Shards.
+Variable K : nat.
+Variable stranded : bool.
+
+Lemma pipeline_graph_kmers (g : graph rpay) :
+  PipelineCheck.graph_kmers K stranded g = RecompCheck.graph_kmers rpay K stranded g.
+Proof. unfold PipelineCheck.graph_kmers, RecompCheck.graph_kmers. rewrite flat_map_concat_map. reflexivity. Qed.
+
+Theorem combine_shards_rvalid_loose_within (sh : dna -> N) (bs : list N) (gs : list (graph rpay)) :
+  NoDup bs ->
+  Forall2 (fun b g => NoDup (PipelineCheck.graph_kmers K stranded g) /\
+                      forall x, In x (PipelineCheck.graph_kmers K stranded g) -> sh x = b) bs gs ->
+  Forall (rvalid_loose rpay K stranded) gs ->
+  rvalid_loose_within rpay K stranded gs (combine_graphs gs).
+Proof.
+  intros Hbs Hsh HV. apply combine_rvalid_loose_within; [exact HV|].
+  rewrite <- pipeline_graph_kmers. exact (proj1 (CombineProofs.combine_spec K stranded sh bs gs Hbs Hsh)).
+Qed.
+End Shards.
